@@ -38,6 +38,8 @@ pub mod stride_eval;
 mod test;
 pub mod threading;
 pub mod utf8_util;
+#[cfg(brotli_verif)]
+pub mod verif_sched;
 pub mod util;
 mod weights;
 pub mod worker_pool;
